@@ -8,6 +8,19 @@ def run(ctx):
     regen.gen_enums()
     regen.gen_format_check()        # T2: a refusal of the translator raises BuildError -> violation (tie broken)
     regen.gen_format_tables()
+    # the enumeration lists on the implementation side (the theorem lists_sound is about the same dump): a concrete failing query, if there is one
+    import os, re
+    gen = open(os.path.join(vlib.COQ, "gen", "Gen_Formats.v")).read()
+    for what, pat in (("format_info_missing", r"first listed format SFC_GET_FORMAT_INFO does not answer with the same name: (0x[0-9a-f]+) \((.*?)\)"),
+                      ("format_info_unlisted", r"first unlisted format SFC_GET_FORMAT_INFO accepts: (0x[0-9a-f]+)")):
+        mm = re.search(pat, gen)
+        if mm:
+            ctx.violation("lists:" + what, "SFC_GET_FORMAT_INFO disagrees with the enumeration commands for format %s %s" % (mm.group(1), mm.group(2) if mm.lastindex > 1 else ""),
+                          "sf_command (NULL, SFC_GET_FORMAT_INFO, &info, sizeof (info)) with info.format = %s, compared with SFC_GET_FORMAT_MAJOR / SFC_GET_FORMAT_SUBTYPE over all indices\n(translator/dump_formats.c prints the dump)" % mm.group(1))
+    for name in ("simple_list", "major_list", "subtype_list"):
+        mm = re.search(r"Definition %s_out_of_range_accepted : Z := (\d+)" % name, gen)
+        if mm and mm.group(1) != "0":
+            ctx.violation("lists:%s_out_of_range" % name, "the %s enumeration command accepts %s indices outside 0 .. count-1" % (name, mm.group(1)), "indices -3 .. count+3 through the SFC_GET_* command of %s" % name)
     vlib.proof_step(ctx)
     h = vlib.cc_harness("grid_open", ["grid_open.c"], kind="asan")
     m = vlib.build_model("fc", "XFc.v", "driver_fc.ml")
